@@ -123,8 +123,10 @@ def make_interp(repo, contract):
         cands = [k for k in lst if k.callable_modular]
         if contract.use_contracts is not None and q not in contract.use_contracts:
             continue
-        if q in prefer:
+        if q in prefer and prefer[q] is not None:
             cands = [k for k in cands if k.name == prefer[q]] or cands
+        elif q in prefer:
+            cands = [k for k in cands if getattr(k, "verify_body", True)] or cands
         else:
             # default: the contract whose body is verified, if any
             cands = [k for k in cands if getattr(k, "verify_body", True)] or cands
